@@ -2540,6 +2540,8 @@ func init() {
 			if nConcRace > 0 {
 				plan.Phases = append(plan.Phases, fw.Phase{Name: "cbconc-race", Race: true, Cases: nConcRace, Chunk: 4, TimeoutS: 900})
 			}
+			plan.Rule += c11r8Rule
+			plan.Phases = append(plan.Phases, c11r8Phases(tier)...) // hot, stream, sizes: see c11_r8.go
 			return plan
 		},
 		Run: func(c *wk.Case) {
@@ -2580,6 +2582,8 @@ func init() {
 				c11PhaseNumEdge(c)
 			case "history":
 				c11PhaseHistory(c)
+			default:
+				c11r8Dispatch(c)
 			}
 		},
 	})
